@@ -1,7 +1,9 @@
 """C11 Forms with different compiled meaning never share a signature.
 
 Two directions.
- equal => equal      the same form recipe built twice (fresh meshes, spaces, coefficients, constants, indices, with
+ equal => equal      the variant built from the objects of the original form (same meshes, spaces, coefficients, after
+                     the original's signature was computed) and from fresh objects has one signature;
+                     the same form recipe built twice (fresh meshes, spaces, coefficients, constants, indices, with
                      noise objects created in between so that all counters are shifted) has one signature.
  different => different   a generated form and a variant produced by ONE edit have different signatures.  A pair only
                      counts if it is provably different for a form compiler: either the edit is in data the compiler
@@ -40,7 +42,7 @@ ASSUMPTIONS = [
     "integrand edits count only when the interpreter finds different values at two random points",
 ]
 BUDGET = {"quick": {"examples": 2500, "seconds": 70}, "thorough": {"examples": 80000, "seconds": 1500}}
-LABEL_FLOORS = {"quick": {"merge:types-differ": 40, "pair:different": 900, "edit:md_array": 60, "edit:element": 50, "rebuild": 2000}}
+LABEL_FLOORS = {"quick": {"shared-objects": 500, "merge:types-differ": 40, "pair:different": 900, "edit:md_array": 60, "edit:element": 50, "rebuild": 2000}}
 CASE_TIMEOUT = {"quick": 20, "thorough": 60}
 
 OPS = {"arith", "math", "cond", "index", "tensor", "compound", "deriv", "pow", "abs", "var", "sign"}
@@ -473,6 +475,23 @@ def check_case(case):
         return {"nontrivial": False, "labels": labels + ["edit-does-not-build"]}
     if s2 is None:
         return {"nontrivial": False, "labels": labels + ["edit-empties-form"]}
+    # ---- equal => equal, with history: the edited form built again from the *objects of the first form* (same meshes,
+    # spaces, coefficients; their signature data has already been asked for under another domain numbering)
+    base_case = base if len(ed) == 3 else case
+    # (not with variables: their labels are created on first use, so the two builds would differ in creation order)
+    if c2["world"] == base_case["world"] and not c2.get("vars") and not base_case.get("vars"):
+        try:
+            f_shared, _ = build_form(b1, c2["integrals"])
+            s2_shared = f_shared.signature() if (f_shared is not None and f_shared.integrals()) else None
+        except RecursionError:
+            raise
+        except Exception:
+            s2_shared = None
+        if s2_shared is not None:
+            labels.append("shared-objects")
+            if s2_shared != s2:
+                raise Violation(f"a form has another signature when it is built from objects that were used in another form before "
+                                f"(edit: {case['edit']})", {"kind": "history:" + case["edit"]})
     provable = kind == "data"
     if kind == "meshes":
         provable = not mesh_equivalent(case, b1, fe1, c2, b2, fe2)
